@@ -191,6 +191,7 @@ type session struct {
 	graceCtxMutex                  sync.Mutex
 	graceCallCmdWaitGroup          graceCounter
 	sessionAge                     time.Duration
+	sessionAgeCtx                  context.Context // context of the received messages, ends with the session age
 	contextAge                     time.Duration
 	sessionAgeLock                 sync.RWMutex
 	contextAgeLock                 sync.RWMutex
@@ -432,12 +433,27 @@ func (s *session) SessionAge() time.Duration {
 func (s *session) SetSessionAge(duration time.Duration) {
 	s.sessionAgeLock.Lock()
 	s.sessionAge = duration
-	if duration > 0 {
-		s.socket.SetReadDeadline(coarsetime.CeilingTimeNow().Add(duration))
+	s.resetSessionAgeLocked()
+	s.sessionAgeLock.Unlock()
+}
+
+// resetSessionAgeLocked starts the session age anew: the read deadline and
+// the context handed to the messages received from now on.
+func (s *session) resetSessionAgeLocked() {
+	if s.sessionAge > 0 {
+		s.socket.SetReadDeadline(coarsetime.CeilingTimeNow().Add(s.sessionAge))
+		s.sessionAgeCtx, _ = context.WithTimeout(context.Background(), s.sessionAge)
 	} else {
 		s.socket.SetReadDeadline(time.Time{})
+		s.sessionAgeCtx = nil
 	}
-	s.sessionAgeLock.Unlock()
+}
+
+func (s *session) sessionAgeContext() context.Context {
+	s.sessionAgeLock.RLock()
+	ctx := s.sessionAgeCtx
+	s.sessionAgeLock.RUnlock()
+	return ctx
 }
 
 // ContextAge returns CALL or PUSH context max age.
@@ -890,15 +906,9 @@ func (s *session) redialForClient(oldConn net.Conn) bool {
 }
 
 func (s *session) startReadAndHandle() {
-	var withContext MessageSetting
-	if readTimeout := s.SessionAge(); readTimeout > 0 {
-		s.socket.SetReadDeadline(coarsetime.CeilingTimeNow().Add(readTimeout))
-		ctxTimout, _ := context.WithTimeout(context.Background(), readTimeout)
-		withContext = socket.WithContext(ctxTimout)
-	} else {
-		s.socket.SetReadDeadline(time.Time{})
-		withContext = socket.WithContext(nil)
-	}
+	s.sessionAgeLock.Lock()
+	s.resetSessionAgeLocked()
+	s.sessionAgeLock.Unlock()
 
 	var (
 		err      error
@@ -913,12 +923,14 @@ func (s *session) startReadAndHandle() {
 	// read call, call reply or push
 	for s.goonRead() {
 		var ctx = s.peer.getContext(s, false)
-		withContext(ctx.input)
+		socket.WithContext(s.sessionAgeContext())(ctx.input)
 		if s.peer.pluginContainer.preReadHeader(ctx) != nil {
 			s.peer.putContext(ctx, false)
 			return
 		}
 		err = s.socket.ReadMessage(ctx.input)
+		// the session age may have been renewed while the read was blocked
+		socket.WithContext(s.sessionAgeContext())(ctx.input)
 		if (err != nil && ctx.GetBodyCodec() == codec.NilCodecID) || !s.goonRead() {
 			if ctx.callCmd != nil {
 				// the frame is a reply whose call has been locked by bindReply:
